@@ -90,6 +90,9 @@ def gen(t, tier):
     sc['bulk'] = meta != [1, 1] and not sc['via_loader'] and not sc['overlay'] and bool(t.chance(0.3))
     if sc['bulk']:
         sc['meta_buffer'] = 0
+    # minimize_meta_requests: a request for several tiles is answered from one upstream request for their common bounding
+    # rectangle instead of whole meta tiles; requests then ask for many tiles at once (as a WMS request does)
+    sc['minimize'] = meta != [1, 1] and not sc['bulk'] and not sc['via_loader'] and bool(t.chance(0.3))
     nops = t.randint(6, 18 if tier == 'quick' else 30)
     for _ in range(nops):
         k = t.weighted([('drop', 2), ('softfail', 2 if sc['overlay'] else 0), ('req', 8), ('adv', 5), ('thr', 3), ('touch', 1), ('upfail', 1), ('seed', 1), ('req2', 3),
@@ -99,7 +102,7 @@ def gen(t, tier):
             c = t.pick(pool)
             sc['ops'].append(['req2', [[c], [t.pick([c, c, t.pick(pool)])]] + ([[c]] if t.chance(0.3) else [])])
         elif k == 'req':
-            m = t.randint(1, 2)
+            m = t.randint(1, 2) if not (sc.get('minimize') and t.chance(0.6)) else t.randint(3, len(pool))
             cs = []
             for _ in range(m):
                 c = t.pick(pool)
@@ -305,7 +308,8 @@ def _run(sc, tape):
         if sc.get('overlay'):
             sources.append(Overlay())
         return TileManager(grid, cache, sources, 'png', locker, image_opts=image_opts,
-                           meta_size=sc['meta_size'], meta_buffer=sc['meta_buffer'], bulk_meta_tiles=bool(sc.get('bulk')))
+                           meta_size=sc['meta_size'], meta_buffer=sc['meta_buffer'], bulk_meta_tiles=bool(sc.get('bulk')),
+                           minimize_meta_requests=bool(sc.get('minimize')))
 
     def stored(coord, cache):
         """independent read of (generation, timestamp) of a stored tile; None if absent"""
@@ -591,7 +595,13 @@ def _run(sc, tape):
             # (a requested tile of the same meta tile that is stale, missing or in the unspecified same-second band)
             shares_meta_tile_with_a_stale_one = any((m[0] // mx_, m[1] // my_, m[2]) == (c[0] // mx_, c[1] // my_, c[2])
                                                     for m in coords if m not in must_not)
-            if c in must_not and g != before[c][0] and not shares_meta_tile_with_a_stale_one:
+            # (minimize_meta_requests: one upstream request covers the bounding rectangle of all tiles of the request that are
+            # not fresh - fresh tiles inside that rectangle are fetched and rewritten along with them)
+            others_ = [m for m in coords if m not in must_not]
+            in_minimal_rectangle = bool(sc.get('minimize')) and bool(others_) and \
+                min(m[0] for m in others_) <= c[0] <= max(m[0] for m in others_) and \
+                min(m[1] for m in others_) <= c[1] <= max(m[1] for m in others_)
+            if c in must_not and g != before[c][0] and not shares_meta_tile_with_a_stale_one and not in_minimal_rectangle:
                 raise Bad('fresh-tile-refetched', '%s: tile %s is newer than the threshold but generation changed %d -> %d' % (
                     what, c, before[c][0], g))
 
